@@ -125,7 +125,13 @@ func vh_C13_batch_argument_counts() {
 // first, middle or last position never make VerifyBatch panic and never produce an error; the entry reports
 // false.  n = 2 exercises the one-by-one remainder path, n = 5 the batch path with its fallback.
 func vh_C13_batch_malformed_entries() {
-	n := 2 + 3*vCase(0, 1)
+	n := 2 + 3*vCase(0, 2)
+	vReplicate = 0
+	if n == 8 {
+		// a second chunk on the batched path (offset 64): the first chunk is one symbolic entry replicated
+		n = 68
+		vReplicate = 64
+	}
 	kind := vCase(1, 7)
 	pos := 0
 	switch vCase(0, 2) {
@@ -133,6 +139,9 @@ func vh_C13_batch_malformed_entries() {
 		pos = n / 2
 	case 2:
 		pos = n - 1
+	}
+	if n == 68 && pos < 64 {
+		pos = 65 // inside the second chunk
 	}
 	r := vBatchRun(n, pos, kind, 0)
 	vAssert(!r.panicked, "VerifyBatch never panics on a malformed entry")
